@@ -30,8 +30,6 @@ import (
 	"sync"
 	"time"
 
-	"github.com/spf13/viper"
-
 	"github.com/atlassian/gostatsd"
 	"github.com/atlassian/gostatsd/pkg/statsd"
 	"github.com/atlassian/gostatsd/pkg/transport"
@@ -56,7 +54,7 @@ type fwdUnit struct {
 func newFwdUnit(cfg compCfg, url string, slots int, maxElapsed time.Duration, dynHeaders ...string) (*fwdUnit, error) {
 	u := &fwdUnit{cfg: cfg, runDone: make(chan struct{})}
 	logger := quietLogger()
-	pool := transport.NewTransportPool(logger, viper.New())
+	pool := transport.NewTransportPool(logger, clientTimeoutViper())
 	cl, err := pool.Get("default")
 	if err != nil {
 		return nil, err
@@ -331,7 +329,9 @@ func (c *checker) concurrent(rounds int) {
 							req.Header.Set("Content-Type", "application/x-protobuf")
 							req.Header.Set("Content-Encoding", it.Enc)
 							var resp *http.Response
-							if resp, err = client.Do(req); err != nil && (strings.Contains(err.Error(), "Client.Timeout") || strings.Contains(err.Error(), "deadline exceeded")) {
+							began := time.Now()
+							if resp, err = client.Do(req); err != nil && time.Since(began) >= 55*time.Second && (strings.Contains(err.Error(), "Client.Timeout") || strings.Contains(err.Error(), "deadline exceeded")) {
+								// the harness client's own 60 s limit
 								mu.Lock()
 								clientTimeout = true
 								mu.Unlock()
